@@ -26,7 +26,7 @@ ASSUMPTIONS = [
 ]
 TIMEOUT = {"quick": 900, "thorough": 8 * 3600}
 NSH = 16
-REJECT_CLASSES = ["gap_first", "gap_middle", "gap_before_last_line", "overlap", "nonzero_start", "unknown_tagtype", "page_tagtype_without_base", "no_bf3_marker", "unknown_tagtype_as_continuation_group", "unknown_tagtype_line_inside_group"]
+REJECT_CLASSES = ["zero_length_line_then_gap", "gap_first", "gap_middle", "gap_before_last_line", "overlap", "nonzero_start", "unknown_tagtype", "page_tagtype_without_base", "no_bf3_marker", "unknown_tagtype_as_continuation_group", "unknown_tagtype_line_inside_group"]
 
 
 def plan(tier, seed):
@@ -39,7 +39,7 @@ def plan(tier, seed):
 def mandatory_bins(tier):
     b = ["tagtype_%02x" % t for t in R.TAGTYPES] + ["ignored_%02x" % t for t in R.IGNORED]
     b += ["fmt_blob", "fmt_bf2compatible", "fmt_memoryimage", "page_crossing", "group_per_page", "one_group_all_pages", "debug_firmware", "release_firmware", "no_firmware_comment",
-          "multi_group_filter", "special_case_filter", "crc", "reboot", "versiondesc", "line_checksum_byte", "enforce_off_without_marker", "filter_comment_checked", "five_sections", "image_ge_64k", "source_is_a_file_name", "stream_positioned_after_other_content"]
+          "multi_group_filter", "special_case_filter", "crc", "reboot", "versiondesc", "line_checksum_byte", "enforce_off_without_marker", "filter_comment_checked", "five_sections", "image_ge_64k", "source_is_a_file_name", "stream_positioned_after_other_content", "zero_length_data_line_inside_data", "instruction_separator_tab", "instruction_separator_several_blanks"]
     b += ["reject:" + c for c in REJECT_CLASSES] + ["mem_gap_before_last_line", "mem_many_extents"]
     return b
 
@@ -114,7 +114,17 @@ def gen_section(rng, ctx, base, big=False):
     cks = rng.random() < 0.3
     if cks:
         ctx.bin("line_checksum_byte")
-    return R.Section(base, lines, gen_filter(rng, typ, ctx), proto, vd, crc, reboot, gpp, cks)
+    if rng.random() < 0.25 and len(lines) >= 2:
+        # zero-length data lines inside contiguous data (they describe no byte; the image is the same)
+        k = rng.randrange(1, len(lines))
+        lines = lines[:k] + [(lines[k][0], b"")] + lines[k:]
+        ctx.bin("zero_length_data_line_inside_data")
+    sec = R.Section(base, lines, gen_filter(rng, typ, ctx), proto, vd, crc, reboot, gpp, cks)
+    r = rng.random()
+    if r < 0.3:
+        sec.sep = rng.choice(("\t", "  ", " \t", "\t\t ", "   "))
+        ctx.bin("instruction_separator_tab" if "\t" in sec.sep else "instruction_separator_several_blanks")
+    return sec
 
 
 def gen_ignored(rng, base):
@@ -324,13 +334,19 @@ def run_import(ns, ctx, spec):
         # ---- rejection cases ---------------------------------------------------------------------
         cls = REJECT_CLASSES[(idx // 4) % len(REJECT_CLASSES)]
         blob_bases = [b for b in bases if R.TAGTYPES[b][2] == R.FMT_BLOB]
-        if cls in ("gap_first", "gap_middle", "gap_before_last_line", "overlap", "nonzero_start"):
+        if cls in ("zero_length_line_then_gap", "gap_first", "gap_middle", "gap_before_last_line", "overlap", "nonzero_start"):
             base = blob_bases[idx % len(blob_bases)]
             s = gen_section(rng, ctx, base)
             while len(s.lines) < 4:
                 s = gen_section(rng, ctx, base)
             L = s.lines
-            if cls == "nonzero_start":
+            if cls == "zero_length_line_then_gap":
+                # an empty data line at address 0, the data itself starting later (or only in page 1)
+                d = rng.choice((1, 0x40, 0x100, 0x10000)) if R.TAGTYPES[base][4] >= 2 else rng.choice((1, 0x40, 0x100))
+                s.lines = [(0, b"")] + [(a + d, p) for a, p in L if ((a + d) & 0xFFFF) + len(p) <= 0x10000 and (a + d) >> 16 < R.TAGTYPES[base][4]]
+                if len(s.lines) < 2:
+                    continue
+            elif cls == "nonzero_start":
                 d = rng.choice((1, 16, 0x100))
                 s.lines = [(a + d, p) for a, p in L if ((a + d) & 0xFFFF) + len(p) <= 0x10000]
             else:
@@ -399,6 +415,13 @@ def run_mem(ns, ctx, spec):
                 ln = 0x10000 - (next_adr & 0xFFFF)
             lines.append((next_adr, rng.randbytes(ln)))
             next_adr += ln
+        if j % 4 == 1 and nlines >= 2:
+            # an empty data line that opens a block of its own (other address than what follows)
+            k = rng.randrange(0, len(lines))
+            a0 = lines[k][0]
+            if a0 >= 0x20 and (k == 0 or lines[k - 1][0] + len(lines[k - 1][1]) <= a0 - 0x10):
+                lines.insert(k, (a0 - 0x10, b""))
+                ctx.bin("mem_empty_line_opening_a_block")
         if j % 5 == 0 and nlines >= 2:
             # force: a gap exactly before the last line
             a, p = lines[-1]
